@@ -385,6 +385,20 @@ func engAcp(e *Env) {
 						e.violate("acp-leak-timetravel", fmt.Sprintf("as %s, %s returns an unreadable document", rq.name, tq), map[string]any{"request": tq, "requester": rq.name})
 					}
 				}
+				// commit history addressed by cid: every commit of the document (composite and field level), learned by
+				// the owner, asked for by the requester
+				oc, _ := real.gql(octx, fmt.Sprintf(`query { commits(docID: "%s") { cid fieldName } }`, d.id))
+				for ci, crow := range rowsOf(oc, "commits") {
+					if ci >= 4 {
+						break
+					}
+					cq := fmt.Sprintf(`query { commits(cid: "%v") { cid docID fieldName delta } }`, crow["cid"])
+					dr, _ := real.gql(rq.ctx, cq)
+					e.Res.Evaluations++
+					if len(rowsOf(dr, "commits")) > 0 {
+						e.violate("acp-leak-commits", fmt.Sprintf("as %s, %s returns a commit (field %v) of the unreadable document k=%d", rq.name, cq, crow["fieldName"], d.k), map[string]any{"request": cq, "requester": rq.name})
+					}
+				}
 				// ... also through a collection without a policy (the commit is addressed by cid, the fields by name)
 				if rows := rowsOf(od, "commits"); len(rows) > 0 {
 					for _, tq := range []string{
